@@ -215,6 +215,12 @@ def run(ctx):
     ctx.proof_phase(MODULE, THEOREMS)
     ctx.proof_phase(MODULE_SEM, THEOREMS_SEM, refutations=["ProbLogProofs.C01.C01_worklist_fuel_insufficient"])
     ctx.proof_phase(MODULE_FO, THEOREMS_FO)
+    # the reference reports probabilities: 0 <= P(q & e) <= P(e) <= 1 under C30's validity condition on the annotations
+    ctx.proof_phase("ProbLogProofs.Properties.C01SemProb", ["ProbLogProofs.C01.C01_spec_is_probability",
+                                                             "ProbLogProofs.C01.C01_run_is_probability",
+                                                             "ProbLogProofs.C01.C01_spec_total_probability",
+                                                             "ProbLogProofs.C01.C01_spec_evidence_is_intersection"],
+                    refutations=["ProbLogProofs.C01.C01_invalid_group_negative_weight"])
     # downstream of the grounder: evaluate(loaded d-DNNF) = weighted count over the consistent valuations of the acyclic
     # ground program (A17), cycle breaking = perfect model (A16), Clark = unique model (A10)
     ctx.proof_phase("ProbLogProofs.Properties.C10Bridge", ["ProbLogProofs.C10.C01_pipeline_downstream", "ProbLogProofs.C10.C01_pipeline_downstream_atoms",
